@@ -240,6 +240,24 @@ def oracleSort {β : Type} (before : β → β → Bool) (parse : String → Opt
   | none => "bad-op"
   | some vs => if orderedBy before vs then "ok" else "not-ordered"
 
+/-- Split rendered units at every comma (44); the text ends with a comma. -/
+def splitPieces (l : List Nat) : List (List Nat) :=
+  let r := l.foldl (fun (acc : List (List Nat) × List Nat) u =>
+    if u == 44 then (acc.2.reverse :: acc.1, []) else (acc.1, u :: acc.2)) ([], [])
+  r.1.reverse
+
+/-- The loop printed each element of the set once, in the order asked for: the pieces are a
+    rearrangement of the elements' texts and the elements they stand for are ordered. -/
+def oracleLoop (asc : Bool) (toks : List String) (rendered : List Nat) : String :=
+  match toks.mapM (fun t => do let v ← parseValue t; let p ← renderTok t; some (p, v)) with
+  | none => "bad-op"
+  | some tbl =>
+    let pieces := splitPieces rendered
+    if !isPermOf pieces (tbl.map (·.1)) then "not-permutation" else
+    match pieces.mapM (fun p => (tbl.find? (fun e => e.1 == p)).map (·.2)) with
+    | none => "not-permutation"
+    | some vs => if orderedBy (if asc then Val.lt else Val.gt) vs then "ok" else "not-ordered"
+
 def slotKey (t : String) : Option (List Nat) :=
   if t == "~" then some [] else
   match t.splitOn "=" with
@@ -273,6 +291,10 @@ def handle (op : String) (args : List String) : String :=
   | "ordsorto", [a, l] => match asc? a with | some a => sortObject a (parseList l) | none => "bad-op"
   | "ordsorth", [a, l] => match asc? a with | some a => sortObject a (parseList l) | none => "bad-op"
   | "ordloop", [a, l] => match asc? a with | some a => loopLine a (parseList l) | none => "bad-op"
+  | "ordoracleloop", [a, i, o] =>
+    match asc? a, parseNats o with
+    | some a, some u => oracleLoop a (parseList i) u
+    | _, _ => "bad-op"
   | "ordoraclepair", [ab, ba] => oraclePair ab ba
   | "ordoracletri", [ab, bc, ac] => oracleTri ab bc ac
   | "ordoraclelex", [a, b, ab] => oracleLex false a b ab
